@@ -2,7 +2,11 @@
 // session with a prefilled history, driven through a fake Connection and a real loop (deferred teardown).
 // Every history is replayed inside a crash-contained persistent child (c13::Worker): crashes, sanitizer reports,
 // hangs and uncaught exceptions become violations of the history that was being evaluated.
-// usage: cmd_harness <initial history length> <depth>
+// usage: cmd_harness <initial history length> <depth>          history lane (probe, history, !!, !n, exit, ';'-chains)
+//        cmd_harness nav <depth> [part nparts]                   navigation lane: a node tree with directories, a directory cycle and
+//                                                                deleted nodes; cd / ls / tree / pwd / help / paths / !! on it
+//        cmd_harness tok <maxlen> [shard nshards]                tokenizer lane (engine I): every line of length <= maxlen over
+//                                                                {p a SPACE ' " ; !} + CR LF on a one-entry history
 #include "hist/hist.h"
 #include "c13_common.h"
 #include <deque>
@@ -11,22 +15,85 @@ using namespace c13;
 struct Op { int c, glue; };   // glue=1: same segment as the previous command (no loop pass in between)
 static const char *CMD[] = {"p a", "p b c", "history", "exit", "!!", "!0", "!1", "!19", "!20", "!21", "!-1", "!-20", "!-21",
                             "!2147483647", "!-2147483648", "!99999999999", "!-99999999999", "!x",
-                            "p a;!!;p b", "p a;!0;p b c", "!-1;p c"};      // ';'-chains with a history reference that is not the last command
-enum { NCMD = 21 };
+                            "p a;!!;p b", "p a;!0;p b c", "!-1;p c",       // ';'-chains with a history reference that is not the last command
+                            "p a;p b c"};                                  // plain ';'-chain: two calls, stored verbatim (judged, nothing adopted)
+enum { NCMD = 22 };
+// navigation lane. Tree (built in World): /p (func)  /d/ (dir)  /d/f (func)  /d/e/ (dir)  /d/e/g (func)  /d/e/up -> d (a directory
+// mounted below itself)  /d/e/top -> root  /d/x (func node deleted after mounting)  /z (dir node deleted after mounting)
+static const char *NAV[] = {"cd d", "cd ..", "cd /", "cd", "cd d/../..", "cd e/up", "cd d/e", "cd e/top", "cd z", "cd ./e/../e/g", "d", "e",
+                            "ls", "ls d", "ls d/f", "ls z", "ls ..", "tree", "tree d", "tree /", "tree d/x", "tree f", "pwd", "help", "help d/f", "help z", "help nope",
+                            "d/f x", "/p a", "f y", "x", "e/top/p b", "g", "../p c", "nope", "!!", "!0", "history"};
+enum { NNAV = sizeof NAV / sizeof NAV[0] };
+static bool g_nav = false;
+static const char *cmd_text(int c) { return g_nav ? NAV[c] : CMD[c]; }
 
 static Args split_sp(const std::string &l) { Args a; size_t p = 0; while (p < l.size()) { size_t q = l.find(' ', p); if (q == std::string::npos) q = l.size(); if (q > p) a.push_back(l.substr(p, q - p)); p = q + 1; } return a; }
 
+// ---- reference node tree of the navigation lane: what a path addresses is decided here, by name --------------------
+enum NodeId { N_ROOT, N_P, N_D, N_F, N_E, N_G, N_X, N_Z, N_NONE };
+enum NodeKind { K_DIR, K_FUNC, K_DELETED };
+static NodeKind kind_of(int n) { return (n == N_ROOT || n == N_D || n == N_E) ? K_DIR : (n == N_X || n == N_Z) ? K_DELETED : K_FUNC; }
+static int child_of(int n, const std::string &name) {
+  if (n == N_ROOT) return name == "p" ? N_P : name == "d" ? N_D : name == "z" ? N_Z : N_NONE;
+  if (n == N_D) return name == "f" ? N_F : name == "e" ? N_E : name == "x" ? N_X : N_NONE;
+  if (n == N_E) return name == "g" ? N_G : name == "up" ? N_D : name == "top" ? N_ROOT : N_NONE;
+  return N_NONE;
+}
+typedef std::vector<std::pair<std::string, int>> RPath;      // the names entered from the root, with the node each one addresses
+static int top_of(const RPath &p) { return p.empty() ? (int)N_ROOT : p.back().second; }
+static std::string path_text(const RPath &p) { std::string t = "/"; for (size_t i = 0; i < p.size(); i++) t += (i ? "/" : "") + p[i].first; return t; }
+// conventions of the shell (check.py assumptions): a leading '/' starts at the root, '.' and empty names stay, '..' leaves the
+// directory and does not resolve at the root, a name resolves only inside an existing directory
+static bool resolve(const std::string &str, RPath &path) {
+  std::vector<std::string> parts; size_t p = 0;
+  for (;;) { size_t q = str.find('/', p); parts.push_back(str.substr(p, q == std::string::npos ? q : q - p)); if (q == std::string::npos) break; p = q + 1; }
+  size_t i = 0; if (parts[0].empty()) { path.clear(); i = 1; }
+  for (; i < parts.size(); i++) {
+    const std::string &name = parts[i];
+    if (name.empty() || name == ".") continue;
+    if (name == "..") { if (path.empty()) return false; path.pop_back(); continue; }
+    if (kind_of(top_of(path)) != K_DIR) return false;
+    int c = child_of(top_of(path), name); if (c == N_NONE) return false;
+    path.push_back({name, c});
+  }
+  return true;
+}
+
 // ---- reference: history of the most recent 20 stored lines + history references (DESIGN 1.7) -----------------
 struct Expect { bool error = false, listing = false, has_call = false, exit = false; Args call; std::deque<std::string> listed; std::string shape;
-                bool chain = false, judged = true; std::vector<Args> calls; };   // chain: the probe calls of the whole line, in order (judged only when every referenced entry is a plain probe line)
+                bool chain = false, judged = true, adopt = false; std::vector<Args> calls;    // chain: the probe calls of the whole line, in order (judged only when every referenced entry is a plain probe line)
+                bool pwd = false; std::string pwd_text;                                      // navigation lane: pwd prints the reference's current directory
+                bool unjudged = false; };                                                    // only the prompt is judged (line follows an adopted chain in the same segment)
 struct CRef {
-  std::deque<std::string> hist;
+  std::deque<std::string> hist; RPath path;
   void store(const std::string &l) { hist.push_back(l); if (hist.size() > 20) hist.pop_front(); }
-  void run_entry(const std::string e, Expect &x) { if (e == "exit") x.exit = true; else { x.has_call = true; x.call = split_sp(e); } store(e); }   // stored in expanded form
+  // what running one plain command (no '!', no ';', not 'history') does
+  void effects(const std::string &e, Expect &x) {
+    Args t = split_sp(e); std::string shape;
+    if (!g_nav) { if (e == "exit") x.exit = true; else { x.has_call = true; x.call = t; } }
+    else if (t[0] == "cd") { RPath np = path; if (resolve(t.size() > 1 ? t[1] : "/", np) && kind_of(top_of(np)) == K_DIR) path = np; shape = "cd-command"; }
+    else if (t[0] == "ls" || t[0] == "tree" || t[0] == "help") shape = t[0] + "-command";
+    else if (t[0] == "pwd") { x.pwd = true; x.pwd_text = path_text(path); shape = "pwd-command"; }
+    else {
+      RPath np = path; bool found = resolve(t[0], np);
+      if (!found) { x.error = true; shape = "path-that-does-not-resolve"; }
+      else if (kind_of(top_of(np)) == K_DELETED) { x.error = true; shape = "path-to-a-deleted-node"; }
+      else if (kind_of(top_of(np)) == K_FUNC) { x.has_call = true; x.call = t; shape = "function-path"; }
+      else { path = np; shape = "bare-directory-path"; }
+    }
+    if (x.shape.empty()) x.shape = shape;
+  }
+  void run_entry(const std::string e, Expect &x) {                               // stored in expanded form
+    if (e.find(';') != std::string::npos) { x.chain = true; size_t p = 0;        // a stored plain chain runs all its pieces again
+      while (p <= e.size()) { size_t q = e.find(';', p); if (q == std::string::npos) q = e.size(); x.calls.push_back(split_sp(e.substr(p, q - p))); p = q + 1; } }
+    else effects(e, x);
+    store(e); }
   Expect exec(const std::string &line) {
     Expect x;
-    if (line.find(';') != std::string::npos) {      // chain: every piece runs in order; what the line leaves in the history is not judged (the reference adopts it)
-      x.chain = true; x.shape = "chain-with-history-reference"; size_t p = 0;
+    if (line.find(';') != std::string::npos) {      // chain: every piece runs in order
+      x.chain = true; size_t p = 0;
+      x.adopt = line.find('!') != std::string::npos;  // with a history reference: what the line leaves in the history is not judged (the reference adopts it)
+      x.shape = x.adopt ? "chain-with-history-reference" : "plain-chain";
       while (p <= line.size()) { size_t q = line.find(';', p); if (q == std::string::npos) q = line.size(); std::string pc = line.substr(p, q - p); p = q + 1;
         std::string e;
         if (pc == "!!") { if (hist.empty()) { x.judged = false; break; } e = hist.back(); }
@@ -34,6 +101,7 @@ struct CRef {
         else e = pc;
         if (e.compare(0, 2, "p ") != 0 || e.find(';') != std::string::npos) { x.judged = false; break; }
         x.calls.push_back(split_sp(e)); }
+      if (!x.adopt) store(line);                      // a chain of plain commands is stored verbatim
       return x; }
     if (line == "history") { x.listing = true; x.listed = hist; x.shape = "history-command"; }          // not stored
     else if (line == "exit") { x.exit = true; store(line); x.shape = "exit-command"; }
@@ -50,7 +118,7 @@ struct CRef {
         else if (neg && v >= 1 && v <= n) { x.shape = "history-ref-existing-entry"; run_entry(hist[(size_t)(n - v)], x); }
         else { x.error = true; if (x.shape.empty()) x.shape = "history-ref-missing-entry"; }
       }
-    } else { x.has_call = true; x.call = split_sp(line); store(line); x.shape = "probe-command"; }
+    } else { effects(line, x); store(line); if (x.shape.empty()) x.shape = "probe-command"; }
     return x;
   }
 };
@@ -69,18 +137,29 @@ struct World {
     term.impl_->session_ctx_pool_.keep_number_ = 0;    // de-pool so that a stale session pointer is a real use-after-free
     auto probe = term.createFuncNode([](const Session &s, const Args &a) { g_calls.push_back({a, g_conn->out.size()}); s.send("ok\r\n"); }, "probe");
     term.mountNode(term.rootNode(), probe, "p");
+    if (g_nav) {   // the tree of the reference (child_of): directories, a directory mounted below itself, the root mounted below, deleted nodes
+      auto d = term.createDirNode("dir d"), e = term.createDirNode("dir e"), z = term.createDirNode("dir z");
+      auto x = term.createFuncNode([](const Session &, const Args &) {}, "func x");
+      term.mountNode(term.rootNode(), d, "d"); term.mountNode(term.rootNode(), z, "z");
+      term.mountNode(d, probe, "f"); term.mountNode(d, e, "e"); term.mountNode(d, x, "x");
+      term.mountNode(e, probe, "g"); term.mountNode(e, d, "up"); term.mountNode(e, term.rootNode(), "top");
+      term.deleteNode(x); term.deleteNode(z);
+    }
     g_conn = &c; st = term.newSession(&c); term.onBegin(st);
   }
   // deliver one segment (complete command lines), check every line's answer, then let the loop run deferred work
   bool segment(const std::vector<std::string> &lines) {
     std::string text; for (auto &l : lines) text += l + "\r\n";
     c.out.clear(); g_calls.clear();
-    std::vector<Expect> exp; int exits = 0;
-    if (alive) for (auto &l : lines) { exp.push_back(ref.exec(l)); if (exp.back().exit) exits++; shape = exp.back().shape; }
+    std::vector<Expect> exp; int exits = 0; bool stale = false;   // stale: a chain whose storage is adopted came earlier in this segment, so the reference's history lags until the segment is over
+    if (alive) for (auto &l : lines) {
+      if (stale) { Expect x; x.unjudged = true; x.shape = "line-after-adopted-chain"; exp.push_back(x); continue; }
+      exp.push_back(ref.exec(l)); if (exp.back().exit) exits++; shape = exp.back().shape; if (exp.back().adopt) stale = true; }
     if (exits >= 2) shape = "double-exit-in-one-segment";
     bool r = false;
     try { r = term.onRecvString(st, text); }
     catch (const std::exception &e) { viol = shape + "-uncaught-exception what=" + e.what(); return false; }   // would reach the event loop and terminate the process
+    if (getenv("C13_DEBUG")) fprintf(stderr, "segment in='%s'\n        out='%s' calls=%zu\n", esc(text).c_str(), esc(c.out).c_str(), g_calls.size());
     if (alive) { if (!r) { viol = "live-session-rejected-input"; return false; } if (!check_answers(lines, exp)) return false; }
     else if (!g_calls.empty()) { viol = "command-executed-on-ended-session"; return false; }
     // the loop runs whatever was deferred (session teardown)
@@ -93,13 +172,16 @@ struct World {
     }
     if (alive) {   // stored lines: most recent 20, in order
       SessionContext *s = term.impl_->sessions_.at(st);
+      if (s == nullptr && stale) { alive = false; return true; }     // an unjudged line (after an adopted chain) may have re-run an exit
       if (s == nullptr) { viol = "session-vanished-without-exit"; return false; }
       if (s->history.size() > 20) { viol = "history-longer-than-20"; return false; }
-      bool had_chain = false; for (auto &x : exp) if (x.chain) had_chain = true;
-      if (had_chain) ref.hist.assign(s->history.begin(), s->history.end());     // storage rule of chain lines is not judged: adopt
+      if (stale) ref.hist.assign(s->history.begin(), s->history.end());     // storage rule of a chain with a history reference is not judged: adopt
       if (s->history.size() != ref.hist.size() || !std::equal(ref.hist.begin(), ref.hist.end(), s->history.begin())) {
         std::string a, b; for (auto &x : s->history) a += x + "|"; for (auto &x : ref.hist) b += x + "|";
         viol = "history-differs-from-the-most-recent-20-stored-lines after=" + shape + " impl=" + a + " ref=" + b; return false; }
+      // navigation lane, state conformance: the directory the session is in (names entered from the root)
+      std::string ip = "/"; for (size_t i = 0; i < s->path.size(); i++) ip += (i ? "/" : "") + s->path[i].first;
+      if (ip != path_text(ref.path)) { viol = "current-directory-differs-from-reference after=" + shape + " impl=" + ip + " ref=" + path_text(ref.path); return false; }
     }
     return true;
   }
@@ -114,6 +196,11 @@ struct World {
       std::vector<Args> calls; for (auto &cl : g_calls) if (cl.second >= start && cl.second < end) calls.push_back(cl.first);
       start = end;
       std::string what = " cmd='" + lines[i] + "' out='" + esc(pc.substr(0, 100)) + "'";
+      if (x.unjudged) continue;
+      if (x.pwd) {   // the last line printed is the current directory
+        size_t e2 = pc.size() >= 2 ? pc.rfind("\r\n", pc.size() - 3) : std::string::npos; std::string last = pc.substr(e2 == std::string::npos ? 0 : e2 + 2);
+        if (last != x.pwd_text + "\r\n") { viol = "pwd-prints-a-directory-other-than-the-reference's ref=" + x.pwd_text + what; return false; }
+      }
       if (x.chain) {
         if (x.judged && calls != x.calls) { std::string got; for (auto &cl : calls) { got += "["; for (auto &a : cl) got += a + ","; got += "]"; } viol = x.shape + "-ran-the-wrong-command-list got=" + (got.empty() ? "<none>" : got) + what; return false; }
       } else if (x.error) {
@@ -140,8 +227,8 @@ static std::string replay(const std::vector<Op> &h, std::string &viol) {
   for (int i = 0; ok && i < g_L; i++) ok = w.segment({"p h" + std::to_string(i)});
   if (!ok) w.viol = "prefill:" + w.viol;
   for (size_t i = 0; ok && i < h.size();) {
-    std::vector<std::string> lines; lines.push_back(CMD[h[i].c]); size_t j = i + 1;
-    while (j < h.size() && h[j].glue) { lines.push_back(CMD[h[j].c]); j++; }
+    std::vector<std::string> lines; lines.push_back(cmd_text(h[i].c)); size_t j = i + 1;
+    while (j < h.size() && h[j].glue) { lines.push_back(cmd_text(h[j].c)); j++; }
     ok = w.segment(lines); i = j;
   }
   viol = w.viol;
@@ -150,7 +237,8 @@ static std::string replay(const std::vector<Op> &h, std::string &viol) {
   std::string canon;
   if (!w.alive) canon = "ended";
   else if (w.term.impl_->sessions_.at(w.st) == nullptr) canon = "ended-after-violation";
-  else { SessionContext *s = w.term.impl_->sessions_.at(w.st); canon = s->curr_input + "|" + std::to_string(s->cursor) + "|" + std::to_string(s->history_index) + "|"; for (auto &x : s->history) canon += x + ","; canon += "|" + std::to_string(w.ref.hist.size()); }
+  else { SessionContext *s = w.term.impl_->sessions_.at(w.st); canon = s->curr_input + "|" + std::to_string(s->cursor) + "|" + std::to_string(s->history_index) + "|"; for (auto &x : s->history) canon += x + ","; canon += "|" + std::to_string(w.ref.hist.size());
+         canon += "|"; for (auto &x : s->path) canon += x.first + "/"; canon += "|" + path_text(w.ref.path); }
   if (ok && loop_has_deferred()) pump(g_loop);   // nothing may stay queued into the next replay
   return canon;
 }
@@ -161,7 +249,7 @@ static std::string shape_of(const std::vector<Op> &h) {
   std::string shape = "setup";
   for (size_t i = 0; i < h.size();) {
     int exits = 0; size_t j = i;
-    do { Expect x = ref.exec(CMD[h[j].c]); shape = x.shape; if (x.exit) exits++; j++; } while (j < h.size() && h[j].glue);
+    do { Expect x = ref.exec(cmd_text(h[j].c)); shape = x.shape; if (x.exit) exits++; j++; } while (j < h.size() && h[j].glue);
     if (exits >= 2) shape = "double-exit-in-one-segment";
     if (exits) break;
     i = j;
@@ -169,22 +257,121 @@ static std::string shape_of(const std::vector<Op> &h) {
   return shape;
 }
 
+// ---- tokenizer lane (engine I): every short line over {p a SPACE ' " ; !} ------------------------------------------------
+static const char TOK_ALPHA[] = {'p', 'a', ' ', '\'', '"', ';', '!'};
+// Reference tokenizer, written to the conventions pinned by util/split_cmdline_test.cpp: words are separated by blanks; a word
+// that starts with a quote is the text up to the matching quote, without the quotes; inside a word that starts with another
+// character a quoted stretch belongs to the word, quotes included; a quote that is never closed is a parse error.
+// pinned=false: the line contains something those conventions do not decide (text directly after a closing quote of a
+// quote-started word, an empty command name).
+static bool ref_tokenize(const std::string &l, Args &args, bool &pinned) {
+  size_t i = 0, n = l.size(); args.clear(); pinned = true;
+  for (;;) {
+    while (i < n && l[i] == ' ') i++;
+    if (i >= n) break;
+    if (l[i] == '\'' || l[i] == '"') {
+      size_t j = l.find(l[i], i + 1); if (j == std::string::npos) return false;
+      args.push_back(l.substr(i + 1, j - i - 1)); i = j + 1;
+      if (i < n && l[i] != ' ') pinned = false;
+    } else {
+      size_t st = i;
+      while (i < n && l[i] != ' ') { if (l[i] == '\'' || l[i] == '"') { size_t j = l.find(l[i], i + 1); if (j == std::string::npos) return false; i = j + 1; } else i++; }
+      args.push_back(l.substr(st, i - st));
+    }
+  }
+  if (!args.empty() && args[0].empty()) pinned = false;
+  return true;
+}
+static std::string tok_shape(const std::string &line) {
+  Args a; bool pinned; bool ok = ref_tokenize(line, a, pinned);
+  bool special = line.find_first_of(";!") != std::string::npos, quoted = line.find_first_of("'\"") != std::string::npos;
+  return std::string("tokenizer-") + (!ok ? "unclosed-quote" : quoted ? "quoted-words" : a.empty() ? "blank-line" : "plain-words") + (special ? "-in-chain-or-history-reference" : "");
+}
+static std::string show_args(const std::vector<Args> &calls) { std::string g; for (auto &cl : calls) { g += "["; for (auto &x : cl) g += "<" + esc(x) + ">"; g += "]"; } return g.empty() ? "<none>" : g; }
+// one line + CR LF on a fresh session whose history holds one entry; returns "" or "<signature> <details>"
+static std::string tok_case(const std::string &line) {
+  World w; if (!w.segment({"p h0"})) return "prefill:" + w.viol;
+  std::string shape = tok_shape(line);
+  w.c.out.clear(); g_calls.clear();
+  bool r = false;
+  try { r = w.term.onRecvString(w.st, line + "\r\n"); if (loop_has_deferred()) pump(g_loop); }
+  catch (const std::exception &e) { g_worker.poisoned = true; return shape + "-uncaught-exception what=" + e.what(); }
+  if (!r) return "live-session-rejected-input";
+  std::string what = " line='" + esc(line) + "' out='" + esc(w.c.out.substr(0, 100)) + "'";
+  size_t prompts = count_sub(w.c.out, "# ");
+  if (prompts != 1 || w.c.out.size() < 2 || w.c.out.compare(w.c.out.size() - 2, 2, "# ") != 0) return shape + "-answered-by-" + std::to_string(prompts) + "-prompts" + what;
+  if (line.find_first_of(";!") != std::string::npos) return "";          // chains and history references: crash / exception / hang / prompt only
+  Args want; bool pinned; bool ok = ref_tokenize(line, want, pinned);
+  if (!pinned) return "";
+  std::vector<Args> calls; for (auto &cl : g_calls) calls.push_back(cl.first);
+  bool err = w.c.out.find("Error") != std::string::npos || w.c.out.find("error") != std::string::npos;
+  if (ok && !want.empty() && want[0] == "p") { if (calls.size() != 1 || calls[0] != want) return shape + "-argv-differs-from-reference got=" + show_args(calls) + " ref=" + show_args({want}) + what; return ""; }
+  if (!calls.empty()) return shape + "-ran-a-command-unexpectedly got=" + show_args(calls) + what;
+  if (!ok && !err) return shape + "-no-error-reported" + what;
+  if (ok && !want.empty() && !err) return shape + "-unknown-command-no-error-reported" + what;
+  return "";
+}
+static std::string hex_of(const std::string &b) { std::string h; char t[4]; for (unsigned char ch : b) { snprintf(t, sizeof t, "%02x", ch); h += t; } return h; }
+static std::string unhex(const char *p) { std::string raw; for (; p[0] && p[1]; p += 2) { unsigned v; sscanf(p, "%2x", &v); raw.push_back((char)v); } return raw; }
+
+static int tok_main(size_t maxlen, long shard, long nshards) {
+  g_worker.recycle_after = 20000; g_worker.job_timeout_s = 5;     // one short line: a job that takes 5 s hangs
+  g_worker.fn = [](const std::string &job) { if (!g_loop) g_loop = event::Loop::New(); return tok_case(job); };
+  double dl = deadline(600); long index = 0, evaluated = 0, inputs = 0, viols = 0, samples = 0, hangs = 0; bool capped = false;
+  std::map<std::string, int> sig_seen; std::map<std::string, long> outcomes;
+  for (size_t len = 0; len <= maxlen && !capped; len++) {
+    std::vector<int> ix(len, 0);
+    for (;;) {
+      std::string line; for (int i : ix) line.push_back(TOK_ALPHA[i]);
+      inputs++;
+      if ((index++ % nshards) == shard) {
+        if (hx::now_s() > dl) { capped = true; printf("@CAP cmd:tok shard %ld: deadline reached at lines of length %zu, %ld lines evaluated\n", shard, len, evaluated); break; }
+        evaluated++;
+        std::string res, crash, viol;
+        if (g_worker.call(line, res, crash)) viol = res;
+        else {
+          std::string kind = crash.find("heap-use-after-free") != std::string::npos ? "use-after-free" : crash.find("uncaught-exception") != std::string::npos ? "uncaught-exception" :
+                             crash.find("hang") == 0 ? "hang" : crash.find("ubsan-integer") != std::string::npos ? "undefined-behaviour" : "crash";
+          std::string sig = tok_shape(line) + "-" + kind; viol = sig + " " + crash;
+          if (sig_seen[sig] < 3 && kind != "hang") viol += " :: " + exec_detail({"--one", "tok", hex_of(line)});
+          if (kind == "hang" && ++hangs >= 4) { capped = true; printf("@CAP cmd:tok shard %ld: stopped after %ld hanging lines (5 s each), %ld lines evaluated\n", shard, hangs, evaluated); }
+        }
+        if (viol.empty()) { outcomes[tok_shape(line)]++; if (samples < 3 && len >= 4 && line.find('\'') != std::string::npos) { samples++; printf("@SAMPLE cmd:tok line '%s' => as the reference tokenizer\n", esc(line).c_str()); } }
+        else { viols++; std::string sig = viol.substr(0, viol.find(' ')); if (sig_seen[sig]++ < 3) printf("@VIOL sig=%s :: cmd:tok line='%s' + CR LF on a one-entry history  [%s]\n", sig.c_str(), esc(line).c_str(), viol.c_str()); }
+      }
+      if (capped) break;
+      size_t k = len; while (k > 0) { if (++ix[k - 1] < (int)sizeof TOK_ALPHA) break; ix[k - 1] = 0; k--; } if (k == 0) break;
+    }
+    if (!capped) printf("@INFO cmd:tok shard %ld/%ld: all lines of length %zu done\n", shard, nshards, len);
+  }
+  g_worker.stop();
+  for (auto &o : outcomes) printf("@OUTCOME cmd:tok %s -> one prompt, argv / error as the reference tokenizer says\n", o.first.c_str());
+  printf("@STAT states=%ld transitions=%ld executions=%ld violations=%ld worker_children=%ld\n", shard == 0 ? inputs : 0, evaluated, evaluated, viols, g_worker.spawned);
+  return 0;
+}
+
 int main(int argc, char **argv) {
   signal(SIGPIPE, SIG_IGN);
+  if (argc > 3 && std::string(argv[1]) == "--one" && std::string(argv[2]) == "tok") {   // detail pass: one line
+    g_loop = event::Loop::New(); std::string v = tok_case(unhex(argv[3])); fprintf(stderr, "viol=%s\n", v.c_str()); return 0;
+  }
   if (argc > 3 && std::string(argv[1]) == "--one") {   // detail pass: one history, in-process, let it die loudly
-    g_L = atoi(argv[2]); std::vector<Op> h; for (const char *p = argv[3]; *p;) { int c = atoi(p); p = strchr(p, '.') + 1; int g = atoi(p); h.push_back({c, g}); p = strchr(p, ','); if (!p) break; p++; }
+    g_nav = std::string(argv[2]) == "nav"; g_L = g_nav ? 0 : atoi(argv[2]); std::vector<Op> h; for (const char *p = argv[3]; *p;) { int c = atoi(p); p = strchr(p, '.') + 1; int g = atoi(p); h.push_back({c, g}); p = strchr(p, ','); if (!p) break; p++; }
     g_loop = event::Loop::New(); std::string v; replay(h, v); fprintf(stderr, "viol=%s\n", v.c_str()); return 0;
   }
-  g_L = argc > 1 ? atoi(argv[1]) : 0; size_t depth = argc > 2 ? atoi(argv[2]) : 3;
+  if (argc > 1 && std::string(argv[1]) == "tok") return tok_main(argc > 2 ? atoi(argv[2]) : 4, argc > 3 ? atol(argv[3]) : 0, argc > 4 ? atol(argv[4]) : 1);
+  g_nav = argc > 1 && std::string(argv[1]) == "nav";
+  g_L = (argc > 1 && !g_nav) ? atoi(argv[1]) : 0; size_t depth = argc > 2 ? atoi(argv[2]) : 3;
   std::map<std::string, int> crash_seen;
   g_worker.recycle_after = 20000;
   g_worker.fn = [](const std::string &job) {
     if (!g_loop) g_loop = event::Loop::New();
     std::vector<Op> h; for (size_t i = 0; i + 1 < job.size(); i += 2) h.push_back({job[i], job[i + 1]});
     std::string v, c = replay(h, v); std::string r = c; r.push_back('\0'); r += v; return r; };
-  hx::Explorer<Op> ex; ex.name = "cmd:hist" + std::to_string(g_L); ex.deadline_s = deadline(600);
-  ex.show = [](const Op &o) { return std::string(o.glue ? "+" : "") + "'" + CMD[o.c] + "'"; };
-  ex.menu = [&](const std::vector<Op> &h) { std::vector<Op> m; for (int g = 0; g < (h.empty() ? 1 : 2); g++) for (int c = 0; c < NCMD; c++) m.push_back({c, g}); return m; };
+  hx::Explorer<Op> ex; ex.name = g_nav ? std::string("cmd:nav") : "cmd:hist" + std::to_string(g_L); ex.deadline_s = deadline(600);
+  if (g_nav && argc > 4) { ex.part = atoi(argv[3]); ex.nparts = atoi(argv[4]); ex.name += ":part" + std::to_string(ex.part); }
+  ex.show = [](const Op &o) { return std::string(o.glue ? "+" : "") + "'" + cmd_text(o.c) + "'"; };
+  ex.menu = [&](const std::vector<Op> &h) { std::vector<Op> m; for (int g = 0; g < ((h.empty() || g_nav) ? 1 : 2); g++) for (int c = 0; c < (g_nav ? (int)NNAV : (int)NCMD); c++) m.push_back({c, g}); return m; };
   ex.run = [&](const std::vector<Op> &h, std::string &viol) {
     std::string job; for (auto &o : h) { job.push_back((char)o.c); job.push_back((char)o.glue); }
     std::string res, crash;
@@ -193,7 +380,7 @@ int main(int argc, char **argv) {
     std::string kind = crash.find("heap-use-after-free") != std::string::npos ? "use-after-free" : crash.find("uncaught-exception") != std::string::npos ? "uncaught-exception" :
                        crash.find("hang") == 0 ? "hang" : crash.find("ubsan-integer") != std::string::npos ? "undefined-behaviour" : "crash";
     std::string sig = shape_of(h) + "-" + kind; viol = sig + " " + crash;
-    if (crash_seen[sig]++ < 3) { std::string ops; for (auto &o : h) ops += (ops.empty() ? "" : ",") + std::to_string(o.c) + "." + std::to_string(o.glue); viol += " :: " + exec_detail({"--one", std::to_string(g_L), ops}); }
+    if (crash_seen[sig]++ < 3) { std::string ops; for (auto &o : h) ops += (ops.empty() ? "" : ",") + std::to_string(o.c) + "." + std::to_string(o.glue); viol += " :: " + exec_detail({"--one", g_nav ? std::string("nav") : std::to_string(g_L), ops}); }
     return std::string("crashed");
   };
   ex.explore(depth);
